@@ -216,7 +216,7 @@ func genLiterals(c *core.Check, emit func(Program) bool) {
 		}
 	}
 	// regular expressions: compared by matching, never by source
-	rp := []string{"a", `\/`, "[/]", `[\]]`, `\d`, `\-`, `[a\-z]`, `[\^]`, `[^a]`, `\.`, ".", `\$`, "$", "^", "(?:a)", "(a)", `\u0041`, `\x41`, "a{1,}", "a{1}", "a*?", `\b`, `\\`, `\(`, `\)`, `\[`, `\{`, `\}`, "[a-z]", `[\d]`, `[\.]`, `[.]`, `[\/]`, `\=`, `\ `, " ", `\"`, `\'`, "[\"']", `\:`, `\,`, `\<`, `\>`, `\!`, `\%`, `\&`, `\@`, `\#`, `\~`, "\\`", `\_`, "|", "(?=a)", "(?!a)", `\1`, `\k<n>`, "(?<n>a)", `\p{L}`, `[\b]`, `\cJ`, `\0`, `\t`, `\n`}
+	rp := []string{"a", `\/`, "[/]", `[\]]`, `\d`, `\-`, `[a\-z]`, `[\^]`, `[^a]`, `\.`, ".", `\$`, "$", "^", "(?:a)", "(a)", `\u0041`, `\x41`, "a{1,}", "a{1}", "a*?", `\b`, `\\`, `\(`, `\)`, `\[`, `\{`, `\}`, "[a-z]", `[\d]`, `[\.]`, `[.]`, `[\/]`, `\=`, `\ `, " ", `\"`, `\'`, "[\"']", `\:`, `\,`, `\<`, `\>`, `\!`, `\%`, `\&`, `\@`, `\#`, `\~`, "\\`", `\_`, "|", "(?=a)", "(?!a)", `\1`, `\k<n>`, "(?<n>a)", `\p{L}`, `[\b]`, `\cJ`, `\0`, `\t`, `\n`, "a{2", `\,3}`, ",3}", "}", "{", `a{2\,3}`, `a\{2,3}`, `a{2,3\}`, `[{]`, `\-`, `\]`}
 	rn := c.Pick(2, 3)
 	rseq := core.Sequences{K: len(rp), MaxLen: rn}
 	test := `["a","/","]","-","^",".","$","A","b","\\","az","","aa","(",")","[","{","}","=","\"","'",":",",","<",">","!","%","&","@","#","~","_"," ","d","1","\b","\n","\t","\0","` + "`" + `"]`
@@ -236,9 +236,9 @@ func genLiterals(c *core.Check, emit func(Program) bool) {
 		}
 	}
 	// numbers
-	nums := []string{"0", "00", "08", "0.0", ".0", "0.", "1.", "1.0", "1.50", "1e3", "1E3", "1e+3", "1e-3", "100", "1000", "10000", "100000", "1000000", "0x10", "0XAB", "0o17", "0O17", "0b11", "0B11", "017", "019", "1_000", "1_0.0_1", "0xfff_f", "1n", "0x1fn", "0n", "100000000000000000000", "1e21", "1e-7", "0.0000001", "0.000001", "123456789012345678901234567890", "9007199254740993", "0.1e1", "5e-324", "1.7976931348623157e308", "1e400", "1e-400", "0xffffffffff", "1000000n", "0b1_1", ".5e1", "5.e1", "011", "0.5", "0.50", "00.5", "1.0e0", "10e-1", "1e0", "1e1", "1e2", "12e1", "0e0", "0.000", "0x0", "0b0", "0o0", "1000000000000000128", "4294967296", "2147483648", "0xFFFFFFFF", "0XfFn", "1e3n", "0xb0", "0xe0", "0xE", "0xb", "0x0e", "0XB", "0xbn", "0x0_0", "0xe_0", "0b0_0", "0b0_1", "0o0_0", "0.0_0", "0xBEEF", "0x0b0e"}
+	nums := []string{"0", "00", "08", "0.0", ".0", "0.", "1.", "1.0", "1.50", "1e3", "1E3", "1e+3", "1e-3", "100", "1000", "10000", "100000", "1000000", "0x10", "0XAB", "0o17", "0O17", "0b11", "0B11", "017", "019", "1_000", "1_0.0_1", "0xfff_f", "1n", "0x1fn", "0n", "100000000000000000000", "1e21", "1e-7", "0.0000001", "0.000001", "123456789012345678901234567890", "9007199254740993", "0.1e1", "5e-324", "1.7976931348623157e308", "1e400", "1e-400", "0xffffffffff", "1000000n", "0b1_1", ".5e1", "5.e1", "011", "0.5", "0.50", "00.5", "1.0e0", "10e-1", "1e0", "1e1", "1e2", "12e1", "0e0", "0.000", "0x0", "0b0", "0o0", "1000000000000000128", "4294967296", "2147483648", "0xFFFFFFFF", "0XfFn", "1e3n", "0xb0", "0xe0", "0xE", "0xb", "0x0e", "0XB", "0xbn", "0x0_0", "0xe_0", "0b0_0", "0b0_1", "0o0_0", "0.0_0", "0xBEEF", "0x0b0e", "0xFFFFFFFFFFFFFFFFn", "0xFFFFFFFFFFFFFFFFFFFFn", "0o7777777777777777777777777n", "0b" + strings.Repeat("1", 70) + "n", "123456789012345678901234567890n", "0xFFFFFFFFFFFFFFFF", "0b" + strings.Repeat("1", 70)}
 	for _, x := range nums {
-		for _, t := range []string{"return [X]", "return [-X]", "return [(X).toString()]", "return [X .toString()]", "return [X+1,X-1,1+X,1-X]", "return [a+X,a-X,a*X]", "return [typeof X]", "return [X in [1,2]]", "return {p:X}", "return [X?1:2]", "return [!X,!!X]", "if(X)return 1;return 2", "return [X,X]", "return [X==0,X===0]", "var o={};o[X]=1;return o", "return [[1,2,3][X]]", "return [X .p]", "return [X['toFixed']&&X.toFixed(1)]"} {
+		for _, t := range []string{"return [X]", "return [-X]", "return [(X).toString()]", "return [X .toString()]", "return [X+1,X-1,1+X,1-X]", "return [a+X,a-X,a*X]", "return [typeof X]", "return [typeof (X)=='bigint'?String(X):X]", "return [X in [1,2]]", "return {p:X}", "return [X?1:2]", "return [!X,!!X]", "if(X)return 1;return 2", "return [X,X]", "return [X==0,X===0]", "var o={};o[X]=1;return o", "return [[1,2,3][X]]", "return [X .p]", "return [X['toFixed']&&X.toFixed(1)]"} {
 			if !emit(Program{fn("var a=h0();" + strings.ReplaceAll(t, "X", x)), "fn", [][]string{{"1"}, {"a"}}}) {
 				return
 			}
@@ -292,7 +292,11 @@ func genFunctions(c *core.Check, emit func(Program) bool) {
 
 func genTopLevel(c *core.Check, emit func(Program) bool) {
 	vec := vectorsOver([]string{"0", "1", "a"}, 2)
-	forms := []string{"var x=h0()", "let y=h0()", "const z=1", "function f(){return x}", "x=2", "w=h0()", "h1(typeof x,typeof y,typeof f,typeof w)", "if(h0())var v=1", "for(var i=0;i<2;i++);", "class K{}", "var f=1", "h1(this===globalThis)", "var e=1,t=2,n=3", "h1(typeof e,typeof t)", "var undefined_", "g0=5", "var g1=6", "h1(g0,g1)", "delete w", "(function(){q=1})()", "(()=>{var x=9;h1(x)})()", "try{h1(nope)}catch(e){h1(1)}", "label:for(;;)break label", "var {p1,p2}={p1:1,p2:2}", "var [e1,e2]=[1,2]", "x++", "`${x}`", "h1(x)"}
+	forms := []string{"var x=h0()", "let y=h0()", "const z=1", "function f(){return x}", "x=2", "w=h0()", "h1(typeof x,typeof y,typeof f,typeof w)", "if(h0())var v=1", "for(var i=0;i<2;i++);", "class K{}", "var f=1", "h1(this===globalThis)", "var e=1,t=2,n=3", "h1(typeof e,typeof t)", "var undefined_", "g0=5", "var g1=6", "h1(g0,g1)", "delete w", "(function(){q=1})()", "(()=>{var x=9;h1(x)})()", "try{h1(nope)}catch(e){h1(1)}", "label:for(;;)break label", "var {p1,p2}={p1:1,p2:2}", "var [e1,e2]=[1,2]", "x++", "`${x}`", "h1(x)",
+		// a function that assigns a variable of the script which is declared further down
+		"function g(){var b=2;late=1;return b}", "var late", "g()", "h1(typeof late,typeof b)", "function g2(){var b=2,c=3;late2=b;late3=c}g2()", "var late2,late3=7", "h1(typeof late2,late3)",
+		"{class A{static x=h0()}}", "{class A extends h0(){}}", "{class A{[h0()](){}}}", "{class A{static{h0()}}}", "{let q=h0()}", "{const q=[h0()]}",
+		"let x2=0;if(h0()){throw 1}else{let x2=2;h1(x2)}h1(x2)"}
 	n := c.Pick(2, 3)
 	seq := core.Sequences{K: len(forms), MaxLen: n}
 	for i := uint64(1); i < seq.Count(); i++ {
